@@ -118,6 +118,7 @@ func isParamField(field string) func(ssa.Value) bool {
 }
 
 func runC18(c *core.Ctx) {
+	checkSigProgramAddressNotBookkeeperStyle(c, "C18.witness-address")
 	// a witness check passes only for an address that signed: for a multi-signature address that rests on
 	// VerifyMultiSignature counting m DISTINCT keys (C14/C39's rule)
 	checkVerifyMultiSignature(c, "C18.multisig-internals")
